@@ -93,6 +93,26 @@ def _keyprint(stmt):
     return (k.key, [(b.key, repr(b.value), repr(b.type)) for b in k.bindparams])
 
 
+def _keydiff(a, b, path="", out=None):
+    """first few differing positions of two key prints (for messages)"""
+    out = [] if out is None else out
+    if len(out) >= 3:
+        return out
+    if isinstance(a, (tuple, list)) and isinstance(b, (tuple, list)):
+        if len(a) != len(b):
+            out.append(f"{path}: length {len(a)} != {len(b)}")
+        for i, (x, y) in enumerate(zip(a, b)):
+            _keydiff(x, y, f"{path}/{i}", out)
+    else:
+        try:
+            same = bool(a == b)
+        except Exception:
+            same = a is b
+        if not same:
+            out.append(f"{path}: {a!r:.150} != {b!r:.150}")
+    return out
+
+
 def _keyprint_loose(kp):
     """key comparison for copies (bind keys carry the id of the bind object)"""
     if kp is None or kp[0] == "err":
@@ -116,7 +136,25 @@ class Node:
         self.clone_children = []
 
     def stmt(self):
-        return self.obj.statement if self.kind == "query" else self.obj
+        if self.kind == "query":
+            try:
+                return self.obj.statement
+            except sa_exc.SQLAlchemyError as e:
+                return _Broken(e)
+        return self.obj
+
+
+class _Broken:
+    """stands in for Query.statement when building it raises (an outcome, compared like a compile error)"""
+
+    def __init__(self, e):
+        self.e = e
+
+    def compile(self, **kw):
+        raise self.e
+
+    def _generate_cache_key(self):
+        raise self.e
 
 
 def _kind_of(obj):
@@ -206,10 +244,15 @@ class Run:
                     observed=got, expected=n.snap[dn],
                 )
         k = _keyprint(st_)
-        if k != n.key:
+        if n.kind == "query":
+            # Query.statement builds a new Select (new bind objects) on every access
+            same = _keyprint_loose(k) == _keyprint_loose(n.key)
+        else:
+            same = k == n.key
+        if not same:
             raise Violation(
                 f"C03/{what}-cache-key/{self.last_op}",
-                f"node {n.idx} (created by {n.how}) has a different cache key after step '{self.last_op}'",
+                f"node {n.idx} (created by {n.how}) has a different cache key after step '{self.last_op}': {_keydiff(n.key, k)}",
                 observed=repr(k)[:1500], expected=repr(n.key)[:1500],
             )
 
@@ -301,7 +344,7 @@ class Run:
                 raise Violation(f"C03/clone-compiles-differently/{how}", f"{how} copy of node {src.idx} compiles differently on {dn}", observed=b, expected=a)
         if how not in ("pickle",):
             if _keyprint_loose(src.key) != _keyprint_loose(clone.key):
-                raise Violation(f"C03/clone-cache-key-differs/{how}", f"{how} copy of node {src.idx} has a different cache key", observed=repr(clone.key)[:1200], expected=repr(src.key)[:1200])
+                raise Violation(f"C03/clone-cache-key-differs/{how}", f"{how} copy of node {src.idx} has a different cache key: {_keydiff(_keyprint_loose(src.key), _keyprint_loose(clone.key))}", observed=repr(clone.key)[:1200], expected=repr(src.key)[:1200])
 
     # ---------------- generative ops: SELECT
     def _cols(self, n, rec, k=2):
@@ -389,6 +432,8 @@ class Run:
             return n.obj.correlate(None)
         if rec["b"] % 3 == 1:
             return n.obj.correlate(G.TABLES[rec["a"] % 3])
+        if n.kind == "query":
+            return n.obj.correlate(G.TABLES[(rec["a"] + 1) % 3])
         return n.obj.correlate_except(G.TABLES[rec["a"] % 3])
 
     def op_prefix_with(self, n, rec):
@@ -534,7 +579,7 @@ class Run:
         return self._values_call(n, lambda: self._op_values(n, rec), rec)
 
     def _op_values(self, n, rec):
-        t = G.TABLES.index(n.obj.table)
+        t = _tindex(n.obj.table)
         col = (G.DATA_COLS[t] + ["s", "id"])[rec["a"] % 4]
         if col == "s":
             v = literal(self.tg.str(rec["b"]))
@@ -547,16 +592,16 @@ class Run:
         return n.obj.values(**{col: v})
 
     def op_values_multi(self, n, rec):
-        t = G.TABLES.index(n.obj.table)
+        t = _tindex(n.obj.table)
         col = G.DATA_COLS[t][rec["a"] % 2]
         return n.obj.values([{col: self.lit(rec["b"] + i)} for i in range(2 + rec["b"] % 2)])
 
     def op_ordered_values(self, n, rec):
-        t = G.TABLES.index(n.obj.table)
+        t = _tindex(n.obj.table)
         return n.obj.ordered_values((G.DATA_COLS[t][rec["a"] % 2], self.lit(rec["b"])), ("s", self.tg.str(rec["a"])))
 
     def op_returning(self, n, rec):
-        t = G.TABLES.index(n.obj.table)
+        t = _tindex(n.obj.table)
         tbl = n.obj.table
         cols = [tbl.c[(["id"] + G.DATA_COLS[t] + ["s"])[rec["a"] % 4]]]
         if rec["b"] & 1:
@@ -571,13 +616,13 @@ class Run:
         return n.obj.inline()
 
     def op_from_select(self, n, rec):
-        t = G.TABLES.index(n.obj.table)
+        t = _tindex(n.obj.table)
         src = G.TABLES[rec["a"] % 3]
         sel = select(src.c.id + self.lit(rec["b"]), src.c.s).where(src.c.id > self.lit(rec["a"]))
         return n.obj.from_select([G.DATA_COLS[t][rec["b"] % 2], "s"], sel)
 
     def op_dml_where(self, n, rec):
-        t = G.TABLES.index(n.obj.table)
+        t = _tindex(n.obj.table)
         env = G.Env([G.table_src(t, False)], {}, False)
         return n.obj.where(G.bx(G.concretize(rec["be"], self.tg), env))
 
@@ -604,11 +649,11 @@ class Run:
         if hasattr(obj, "on_conflict_do_update"):
             if rec["b"] & 1:
                 return obj.on_conflict_do_nothing(index_elements=[tbl.c.id] if rec["a"] & 1 else None)
-            t = G.TABLES.index(tbl)
+            t = _tindex(tbl)
             col = G.DATA_COLS[t][rec["a"] % 2]
             return obj.on_conflict_do_update(index_elements=[tbl.c.id], set_={col: obj.excluded[col] + self.lit(rec["a"])}, where=(tbl.c.id > self.lit(rec["b"])) if rec["b"] & 2 else None)
         if hasattr(obj, "on_duplicate_key_update"):
-            t = G.TABLES.index(tbl)
+            t = _tindex(tbl)
             col = G.DATA_COLS[t][rec["a"] % 2]
             return obj.on_duplicate_key_update(**{col: obj.inserted[col] + self.lit(rec["a"])})
         return obj.prefix_with("/*noconflict*/")
@@ -715,6 +760,11 @@ class Run:
         elif w == 8 and hasattr(st_, "subquery"):
             list(st_.subquery().c)
         return None
+
+
+def _tindex(tbl):
+    """index of the (possibly pickled copy of a) schema table"""
+    return ["ta", "tb", "tc"].index(tbl.name)
 
 
 def _has_unpicklable(n):
